@@ -1,10 +1,16 @@
 (* Correspondence interface for C11.
-   COps   : the file-system operations strace recorded on the snapshot path of the real Maintenance shutdown
-            snapshot; check = they are exactly [snapshot_ops] for the bytes that ended up in the file.
-   CCrash : the RECORDED operation list, the old file content, and crash points (k, adversary choice) with what the
-            harness materialised and what the real loader did; check = the model's crash image of [target] is the
-            one the harness described; prop = the model's image is exactly the old or exactly the new bytes
-            (executable form of snapshot_atomic, evaluated on the recorded - possibly mutated - sequence). *)
+   COps    : the file-system operations strace recorded on the snapshot path of one real Maintenance snapshot;
+             check = they are exactly [snapshot_ops] (with a temp name different from the target) for the bytes written.
+   CCrash  : the RECORDED operation list, the old file content, and crash points (k, adversary choice) with the image
+             the harness materialised and what the real loader made of it; check = the model's crash image of
+             [target] is the one described AND the model's loader classifies it as the real loader did (old content /
+             new content / error / other); prop = the model's image is exactly the old or exactly the new bytes
+             (executable snapshot_atomic, evaluated on the recorded - possibly mutated - sequence).
+   CCodecN/S : bytes marshalled by protobuf-go (real Snapshot output or reference-marshalled records) and the records
+             protobuf-go decodes them to; check = Wire.v decodes the same records (maps compared as maps) and, for
+             deterministic bytes, re-encodes them byte for byte; prop = decode (encode l) = l on the decoded list.
+   CMutN/S : a small snapshot with strict prefixes and 1-byte replacements, each with the real loader's outcome;
+             check = same outcome class and same loaded records; prop = executable prefix_behaviour. *)
 From Coq Require Import Uint63.
 From AM Require Export Base.Prelude Model.Nflog Model.FsCrash Model.Wire Model.Snapshot.
 
@@ -201,7 +207,9 @@ Definition model_class (store : nat) (old : option (list N)) (new : list N) : op
 
 Definition check_case (c : case) : bool :=
   match c with
-  | COps target tmp data recorded => ops_eqb recorded (snapshot_ops tmp target data)
+  | COps target tmp data recorded =>
+      negb (String.eqb tmp target) (* the atomicity theorem needs a temp name different from the target *) &&
+      ops_eqb recorded (snapshot_ops tmp target data)
   | CCrash store target old new ops pts =>
       let cls := model_class store old new in
       forallb (fun p => let m := model_image target old ops p in
